@@ -72,7 +72,7 @@ def _peval(t, env: Dict[tuple, object], funcs=None):
                 continue
             res.append(v)
         if not res:
-            return vals[-1]
+            return vals[-1] if vals else ("const", k == "and")
         if len(res) == 1 and all(_is_const(v) for v in vals if v is not res[0]) and vals[-1] is res[0]:
             return res[0]
         return (k, tuple(res))
